@@ -64,6 +64,7 @@ type parser_ struct {
 	source_ string                   // The original source code.
 	tokens_ col.QueueLike[TokenLike] // A queue of unread tokens from the scanner.
 	next_   col.StackLike[TokenLike] // A stack of read, but unprocessed tokens.
+	done_   bool                     // Whether the last token from the scanner has been read.
 }
 
 // Attributes
@@ -83,7 +84,12 @@ func (v *parser_) ParseSource(source string) (collection any) {
 	v.next_ = col.Stack[TokenLike](notation).MakeWithCapacity(parserClass.stackSize_)
 
 	// The scanner runs in a separate Go routine.
+	v.done_ = false
 	Scanner().Make(v.source_, v.tokens_)
+
+	// Let the scanner finish before returning or panicking, otherwise it would
+	// stay blocked forever on a full token queue that nobody reads anymore.
+	defer v.drainTokens()
 
 	// Attempt to parse a collection.
 	var token TokenLike
@@ -119,6 +125,18 @@ func (v *parser_) ParseSource(source string) (collection any) {
 }
 
 // Private
+
+// This private instance method reads and discards the tokens that the parser
+// did not need, up to and including the EOF token, which lets the scanner run to
+// completion.
+func (v *parser_) drainTokens() {
+	for !v.done_ {
+		var token, ok = v.tokens_.RemoveHead() // This will wait for a token.
+		if !ok || token.GetType() == EOFToken {
+			v.done_ = true
+		}
+	}
+}
 
 func (v *parser_) formatError(token TokenLike) string {
 	// Format the error message.
@@ -176,6 +194,11 @@ func (v *parser_) getNextToken() TokenLike {
 	var token, ok = v.tokens_.RemoveHead() // This will wait for a token.
 	if !ok {
 		panic("The token channel terminated without an EOF token.")
+	}
+
+	// The EOF token is the last token that the scanner sends.
+	if token.GetType() == EOFToken {
+		v.done_ = true
 	}
 
 	// Check for an error token.
